@@ -12,6 +12,7 @@ import (
 	"strings"
 	"time"
 
+	abci "github.com/tendermint/tendermint/abci/types"
 	tmbytes "github.com/tendermint/tendermint/libs/bytes"
 	tmproto "github.com/tendermint/tendermint/proto/tendermint/types"
 
@@ -148,6 +149,7 @@ type World struct {
 	modSvcBehaviour ModSvcBehaviour
 	hasModSvc bool
 	stateCbKill bool // the verifmod double kills a context from inside its state callback
+	viaApp bool      // end-of-block through the application's module manager
 
 	tracked    map[string]string // addr hex -> name, accounts whose balance is observed
 	trackedOrd []string
@@ -392,6 +394,7 @@ func errCode(err error) string {
 // to the next block, dt later.
 func (w *World) EndBlock(dt time.Duration) (res StepResult) {
 	w.cbLog = nil
+	var viaEvents []EventRec
 	ctx := w.curCtx().WithEventManager(sdk.NewEventManager())
 	t0 := time.Now()
 	func() {
@@ -401,11 +404,27 @@ func (w *World) EndBlock(dt time.Duration) (res StepResult) {
 				res.PanicSite = panicSite(string(debug.Stack()))
 			}
 		}()
-		service.EndBlocker(ctx, w.a.k)
+		if w.viaApp {
+			// through the application's module manager (module.go AppModule.EndBlock), together
+			// with the end blockers of crisis / gov / staking, as on a node
+			resp := w.a.app.EndBlocker(ctx, abci.RequestEndBlock{Height: w.height})
+			for _, e := range resp.Events {
+				er := EventRec{Type: e.Type, Attrs: map[string]string{}}
+				for _, a := range e.Attributes {
+					er.Attrs[string(a.Key)] = string(a.Value)
+				}
+				viaEvents = append(viaEvents, er)
+			}
+		} else {
+			service.EndBlocker(ctx, w.a.k)
+		}
 		res.OK = true
 	}()
 	res.WallNs = time.Since(t0).Nanoseconds()
 	res.Events = convEvents(ctx.EventManager().Events())
+	if w.viaApp {
+		res.Events = viaEvents
+	}
 	res.Callbacks = w.cbLog
 	w.cbLog = nil
 	w.height++
